@@ -155,7 +155,9 @@ func (r *replayer) run(pkg string, cases []replayCase, timeout time.Duration) ([
 	}
 	// a crash outside the harness goroutine kills the process: attribute it to the running case
 	if cur >= 0 && cur < len(res) && res[cur].Status == "missing" {
-		if idx := strings.Index(out, "panic: "); idx >= 0 {
+		if strings.Contains(out, "test timed out") {
+			res[cur].Status = "timeout"
+		} else if idx := strings.Index(out, "panic: "); idx >= 0 {
 			res[cur].Status = "panic"
 			res[cur].PanicMsg = firstLine(out[idx+7:])
 		} else if strings.Contains(out, "fatal error: ") {
